@@ -69,6 +69,15 @@ NOCTX = [
     ("no-current-schema", "select", "SELECT * FROM T", (90106, "22000")),
     ("no-current-schema", "create-table", "CREATE TABLE X5 (I INT)", (90106, "22000")),
     ("no-current-schema", "delete", "DELETE FROM T", (90106, "22000")),
+    # the unqualified table is the statement's own (outer) table; a fully qualified table appears elsewhere in the statement
+    ("no-current-schema", "outer-from+qualified-scalar-subquery", "SELECT K, (SELECT MAX(K) FROM DB1.S1.T2) AS M FROM T", (90106, "22000")),
+    ("no-current-schema", "outer-from+qualified-in-subquery", "SELECT * FROM T WHERE K IN (SELECT K FROM DB1.S1.T2)", (90106, "22000")),
+    ("no-current-schema", "insert-target+qualified-source", "INSERT INTO T SELECT * FROM DB1.S1.T2", (90106, "22000")),
+    ("no-current-schema", "ctas-target+qualified-source", "CREATE TABLE X5 AS SELECT * FROM DB1.S1.T", (90106, "22000")),
+    ("no-current-schema", "join-left+qualified-right", "SELECT * FROM T JOIN DB1.S1.T2 ON T.K = T2.K", (90106, "22000")),
+    ("no-current-schema", "update-target+qualified-subquery", "UPDATE T SET K = 1 WHERE K IN (SELECT K FROM DB1.S1.T2)", (90106, "22000")),
+    ("no-current-database", "outer-from+qualified-scalar-subquery", "SELECT K, (SELECT MAX(K) FROM DB1.S1.T2) AS M FROM T", (90105, "22000")),
+    ("no-current-database", "insert-target+qualified-source", "INSERT INTO T SELECT * FROM DB1.S1.T2", (90105, "22000")),
 ]
 FOLLOW = [
     "SELECT K, V FROM T ORDER BY K",
@@ -80,6 +89,8 @@ FOLLOW = [
     "SELECT * FROM V",
     "DESCRIBE TABLE T",
     "SELECT CURRENT_DATABASE(), CURRENT_SCHEMA()",
+    "CALL SOME_PROCEDURE()",  # matched by the instance's nop_regexes: succeeds as a no-op (another exit path of execute)
+    "call other_proc(1, 'x')",
 ]
 
 
@@ -147,7 +158,7 @@ def run_failure(case, ctx: Ctx) -> None:
     cause, pos, sql, exact = table[idx]
     from snowflake.connector.cursor import DictCursor, SnowflakeCursor
 
-    fs, twin = new_instance(), new_instance()
+    fs, twin = new_instance(nop_regexes=[r"^CALL\s"]), new_instance(nop_regexes=[r"^CALL\s"])
     try:
         conn, tconn = _setup(fs, which, idx), _setup(twin, which, idx)
         other = fs.connect("db1", "s1")
@@ -210,8 +221,8 @@ def run_failure(case, ctx: Ctx) -> None:
                 if (a.ok, repr(a.rows), a.err_key()) != (b.ok, repr(b.rows), b.err_key()):
                     ctx.fail(sig("follow-up-differs-from-twin"), f"{FOLLOW[fi]}: {a} vs twin {b}")
                     break
-                if first and a.ok and fcur is cur and cur.sqlstate is not None:
-                    ctx.fail(sig("cursor.sqlstate-not-reset"), f"after successful {FOLLOW[fi]}: {cur.sqlstate!r}")
+                if a.ok and fcur is cur and cur.sqlstate is not None:
+                    ctx.fail(sig("cursor.sqlstate-not-reset" + ("|after-nop" if FOLLOW[fi].upper().startswith("CALL") else "")), f"after successful {FOLLOW[fi]}: {cur.sqlstate!r}")
                 first = False
             if in_tx:
                 end = case.get("end_tx", "rollback").upper()
@@ -246,10 +257,19 @@ def run_closed(case, ctx: Ctx) -> None:
         keep.cursor().execute("CREATE TABLE T (K INT, V VARCHAR)")
         conn = fs.connect(*a)
         old = conn.cursor()
+        try:
+            old.execute("SELECT * FROM DB1.S1.NO_SUCH_TABLE")
+        except Exception:
+            pass
+        stale = old.sqlstate
         old.execute("SELECT 1")
+        try:
+            old.execute("SELECT * FROM DB1.S1.NO_SUCH_TABLE")
+        except Exception:
+            pass
         if case.get("had_tx"):
             old.execute("BEGIN")
-            old.execute("SELECT 1")  # keep a query as the cursor's last statement (description after BEGIN is C06's subject)
+            old.execute("SELECT 1")  # keep a query as the cursor's last statement
         conn.close()
         if not conn.is_closed():
             ctx.fail("C07|closed|is_closed-false", "")
@@ -263,7 +283,11 @@ def run_closed(case, ctx: Ctx) -> None:
                 if use == "cursor.execute":
                     conn.cursor().execute("SELECT 1")
                 elif use == "old-cursor.execute":
-                    old.execute("SELECT 2")
+                    try:
+                        old.execute("SELECT 2")
+                    finally:
+                        if old.sqlstate == "42S02":
+                            ctx.fail("C07|closed|stale-sqlstate-after-execute", f"cursor.sqlstate still {old.sqlstate!r} (from an earlier failed statement) after a later execute raised")
                 elif use == "execute_string":
                     conn.execute_string("SELECT 1; SELECT 2")
                 elif use == "commit":
